@@ -67,6 +67,7 @@ def check(c: Check):
     clause_f(c)
     clause_g(c)
     clause_h(c)
+    clause_i(c)
 
 
 # ---------------------------------------------------------------- a
@@ -669,3 +670,168 @@ def clause_h(c: Check):
     if len(got) != want or {g[0].name for g in got} != {'Broken'}:
         raise AnalysisError('C18-h: positive control failed: %d uses reported in %s, expected %d in Broken' % (
             len(got), sorted({g[0].name for g in got}), want))
+
+
+# ---------------------------------------------------------------- i
+def clause_i(c: Check):
+    """NULL / typestate of the parse source in error handlers: when a parser fails, the source it was reading may be
+    at the end of the file (the failing instruction is on the last line and its parser has consumed that line).  The
+    members of ParseSource whose own docstring states "Precondition: has_current_line" (current_line_number,
+    column_index, current_line ...) have no value then (None): code that runs while the failure is turned into the
+    syntax error - the body of the handler, and the functions it hands the source to - must not use them on a source
+    that the guarded code could have consumed, or the conversion itself raises (TypeError / AttributeError) and the
+    user's syntax error becomes an INTERNAL_ERROR without a source line."""
+    ix = c.ix
+    ps = ix.cls('exactly_lib.section_document.parse_source:ParseSource')
+    pre = set()
+    for name, f in ps.methods.items():
+        doc = ast.get_docstring(f.node) or ''
+        if 'Precondition: has_current_line' in doc or 'Precondition: has_current_line' in doc.replace('\n', ' '):
+            pre.add(name)
+    c.require(len(pre) >= 4, 'C18-i: the members of ParseSource that need a current line are not found (%s)' % sorted(pre))
+    n_handlers = 0
+    for name in ix.all_module_names():
+        if not any(name.startswith(p_) for p_ in ('exactly_lib.section_document.', 'exactly_lib.impls.actors.',
+                                                  'exactly_lib.processing.', 'exactly_lib.test_suite.',
+                                                  'exactly_lib.impls.instructions.')):
+            continue
+        t = ix.text(name)
+        if 'except' not in t or 'ParseSource' not in t:
+            continue
+        m = ix.module(name)
+        for tr in ast.walk(m.tree):
+            if not isinstance(tr, ast.Try):
+                continue
+            f = m.enclosing_func(tr)
+            if f is None:
+                continue
+            srcs = {a.arg for a in f.node.args.args + f.node.args.kwonlyargs
+                    if a.annotation is not None and unparse(a.annotation).split('.')[-1] == 'ParseSource'}
+            if not srcs:
+                continue
+            # may the guarded code consume the source?  (it is handed on, or a method other than a getter is called)
+            consumed = set()
+            for st_ in tr.body:
+                for n in ast.walk(st_):
+                    if isinstance(n, ast.Call):
+                        for a in list(n.args) + [k.value for k in n.keywords]:
+                            if isinstance(a, ast.Name) and a.id in srcs:
+                                consumed.add(a.id)
+                        if isinstance(n.func, ast.Attribute) and isinstance(n.func.value, ast.Name) \
+                                and n.func.value.id in srcs:
+                            consumed.add(n.func.value.id)
+            for h in tr.handlers:
+                n_handlers += 1
+                for src in sorted(consumed):
+                    for where, node, attr in _needs_current_line(ix, m, f, h.body, src, pre, 0):
+                        c.bad('C18-i', 'handler-needs-current-line/%s/%s' % (f.key, attr),
+                              'while %s turns a failure of the parser into the syntax error, `%s` is used (%s) - but the '
+                              'failed parser may have consumed the last line of the file: the member has no value at end '
+                              'of file, the conversion raises, and the mistake is reported as INTERNAL_ERROR' % (
+                                  f.name, attr, where), '%s:%d' % (m.relpath, node.lineno))
+    c.ok('C18-i', 'handlers-of-parse-failures', detail='%d handlers in functions that take a ParseSource' % n_handlers)
+    # the same for the exception a bad regular expression raises: pos / lineno / colno of re.error are None when the
+    # error is found by the compiler rather than the parser of the expression (e.g. a look-behind of variable width)
+    n_re = 0
+    mods = [ix.module(n_) for n_ in ix.all_module_names() if 're.error' in ix.text(n_) or 'sre_constants' in ix.text(n_)]
+    for m in mods:
+        for where, node, attr in _optional_re_error_attributes_as_numbers(ix, m):
+            c.bad('C18-i', 're.error-position-as-number/%s/%s' % (where, attr),
+                  '`%s` of the error raised for an invalid regular expression is used as a number, but it is None for the '
+                  'errors the regex compiler finds (variable-width look-behind ...): the handler raises TypeError and the '
+                  'invalid REGEX is reported as INTERNAL_ERROR' % attr, '%s:%d' % (m.relpath, node.lineno))
+        n_re += 1
+    c.floor('C18-i', 'modules that handle re.error', n_re, 1)
+    import os
+    from ..report import VERIF_ROOT
+    fx = Index(os.path.join(VERIF_ROOT, 'fixtures', 'evaluators'))
+    fm = fx.module('exactly_lib.impls.fixture_re_error')
+    got = sorted(n_.lineno for _, n_, _a in _optional_re_error_attributes_as_numbers(fx, fm))
+    want = sorted(i + 1 for i, line in enumerate(fm.src.splitlines()) if '# EXPECT optional' in line)
+    if got != want:
+        raise AnalysisError('C18-i: positive control failed: lines %s reported, expected %s' % (got, want))
+    c.floor('C18-i', 'handlers in functions that take a parse source', n_handlers, 5)
+
+
+def _needs_current_line(ix, m, f, stmts, src: str, pre, depth: int):
+    """(description, node, member) for uses of precondition members of the source named `src` in stmts, and in the
+    functions the source is handed to (two levels)"""
+    out = []
+    for st_ in stmts:
+        for n in ast.walk(st_):
+            if isinstance(n, ast.Attribute) and n.attr in pre and isinstance(n.value, ast.Name) and n.value.id == src:
+                out.append(('in %s' % f.name, n, n.attr))
+            if isinstance(n, ast.Call) and depth < 2:
+                args = list(n.args)
+                hit = [i for i, a in enumerate(args) if isinstance(a, ast.Name) and a.id == src]
+                kw_hit = [k.arg for k in n.keywords if k.arg and isinstance(k.value, ast.Name) and k.value.id == src]
+                if not hit and not kw_hit:
+                    continue
+                try:
+                    d = ix.callee(m, f, n)
+                except Exception:
+                    d = None
+                if isinstance(d, ClassDef):
+                    d = util.ctor_of(ix, d)
+                    skip = 1
+                elif isinstance(d, FuncDef):
+                    skip = 1 if (d.cls is not None and not d.is_static and isinstance(n.func, ast.Attribute)) else 0
+                else:
+                    continue
+                if d is None:
+                    continue
+                pos = [p_.arg for p_ in d.positional_params()[skip:]]
+                names = [pos[i] for i in hit if i < len(pos)] + kw_hit
+                for pn in names:
+                    for w, node, attr in _needs_current_line(ix, d.module, d, d.node.body, pn, pre, depth + 1):
+                        out.append(('%s, called from %s' % (w, f.name), n, attr))
+    return out
+
+
+RE_ERROR_OPTIONAL = ('pos', 'lineno', 'colno')
+
+
+def _optional_re_error_attributes_as_numbers(ix, m):
+    out = []
+
+    def is_re_error(f, t) -> bool:
+        d = ix.resolve_static(m, f, t) if f is not None else None
+        return (isinstance(d, External) and d.dotted in ('re.error', 'sre_constants.error', 're.PatternError')) \
+            or unparse(t) in ('re.error', 'sre_constants.error')
+
+    scopes = []   # (root node whose sub tree is scanned, name of the exception in it, function)
+    for h in ast.walk(m.tree):
+        if isinstance(h, ast.ExceptHandler) and h.name and h.type is not None:
+            f = m.enclosing_func(h)
+            types = h.type.elts if isinstance(h.type, ast.Tuple) else [h.type]
+            if any(is_re_error(f, t) for t in types):
+                scopes.append((h, h.name, f))
+    for f in m.funcs_by_node.values():
+        # ... and the functions the exception is handed to (a parameter declared to be a re.error)
+        for a in f.node.args.args + f.node.args.kwonlyargs:
+            if a.annotation is not None and is_re_error(f, a.annotation):
+                scopes.append((f.node, a.arg, f))
+    for h, exc_name, f in scopes:
+        for n in ast.walk(h):
+            if not (isinstance(n, ast.Attribute) and n.attr in RE_ERROR_OPTIONAL and isinstance(n.value, ast.Name)
+                    and n.value.id == exc_name):
+                continue
+            p = parent(n)
+            numeric = isinstance(p, (ast.BinOp, ast.UnaryOp, ast.Slice)) or (
+                isinstance(p, ast.Subscript) and p.slice is n) or (
+                isinstance(p, ast.Compare) and any(isinstance(o, (ast.Lt, ast.LtE, ast.Gt, ast.GtE)) for o in p.ops)) or (
+                isinstance(p, ast.Call) and isinstance(p.func, ast.Name) and p.func.id in ('range', 'int', 'abs', 'min', 'max'))
+            if not numeric:
+                continue
+            guarded = False
+            for a in ancestors(n):
+                if a is h:
+                    break
+                if isinstance(a, (ast.If, ast.IfExp)):
+                    for x in ast.walk(a.test):
+                        if isinstance(x, ast.Compare) and isinstance(x.left, ast.Attribute) and x.left.attr == n.attr \
+                                and any(isinstance(o, (ast.Is, ast.IsNot)) for o in x.ops):
+                            guarded = True
+            if not guarded:
+                out.append((f.key if f else m.name, n, n.attr))
+    return out
